@@ -51,6 +51,8 @@ def _menu(client):
             # a field whose name is empty, or is nothing but whitespace (which normalisation strips to nothing)
             m.append(("send_headers:%d:EMPTYNAME:0" % sid, "send_headers", (sid, "EMPTYNAME", False)))
             m.append(("send_headers:%d:WSNAME:1" % sid, "send_headers", (sid, "WSNAME", True)))
+            # no field at all, with END_STREAM (empty trailers where trailers are due)
+            m.append(("send_headers:%d:EMPTY:1" % sid, "send_headers", (sid, "EMPTY", True)))
         if not client and sid in (1, 2, 3):
             # an informational (103) block, also on a stream that is only promised so far
             m.append(("send_headers:%d:INFO:0" % sid, "send_headers", (sid, "INFO", False)))
@@ -172,6 +174,8 @@ class Spec:
             return H.ni(H.RESP)
         if kind == "BAD":
             return H.ni(BAD_REQ) if self.client else H.ni([(b"content-type", b"x")])
+        if kind == "EMPTY":
+            return []
         if kind == "EMPTYNAME":
             return H.ni((H.REQ if self.client else H.RESP) + [(b"", b"v")])
         if kind == "WSNAME":
